@@ -670,18 +670,15 @@ def _reduced_motifs(fm: FuncModel, name: str, at, sd_p: str, node_p: str) -> boo
                 return False
             continue
         return False
-    # appended elements
+    # nothing else may be added to the avoided region: only the node's own successors bound the search
     for n in fm.cfg.nodes:
         if n.kind == "stmt" and n.ast is not None and not isinstance(n.ast, (ast.FunctionDef, ast.ClassDef)):
             for c in ast.walk(n.ast):
-                if isinstance(c, ast.Call) and isinstance(c.func, ast.Attribute) and c.func.attr == "append" \
+                if isinstance(c, ast.Call) and isinstance(c.func, ast.Attribute) and c.func.attr in ("append", "extend", "insert") \
                         and isinstance(c.func.value, ast.Name) and c.func.value.id == name:
-                    e = c.args[0]
-                    sd = fm.single_def(e.id, n) if isinstance(e, ast.Name) else None
-                    v = sd[1] if sd else e
-                    if not (isinstance(v, ast.DictComp) and v.generators and v.generators[0].ifs
-                            and "not in" in text(v.generators[0].ifs[0]) and "node_space" in text(v.generators[0].ifs[0])):
-                        return False
+                    return False
+            if isinstance(n.ast, ast.AugAssign) and isinstance(n.ast.target, ast.Name) and n.ast.target.id == name:
+                return False
     return True
 
 
